@@ -2,7 +2,7 @@
 # confirm a sub-agent's seeded change in a scratch export of /repo's HEAD:
 #   clean tree: builds, suite passes, demo exits 0;  patched tree: builds, suite passes, demo exits non-zero
 # usage: tools/confirm_seeded.sh <ID> [srcdir=/tmp/seeded-<ID>]    -> prints a one-line verdict, writes <srcdir>/confirm.log
-ID=$1; SRC=${2:-/tmp/seeded-$ID}; SCR=/var/tmp/confirm-$ID.$$
+ID=$1; SRC=${2:-/tmp/seeded-$ID}; SCR=${VERIF_CONFIRM_SCRATCH:-/var/tmp}/confirm-$ID.$$
 [ -f "$SRC/patch.diff" ] || { echo "$ID: no patch.diff"; exit 2; }
 rm -rf "$SCR"; mkdir -p "$SCR"; trap 'rm -rf "$SCR"' EXIT
 git -C /repo archive HEAD | tar -x -C "$SCR"
